@@ -1,6 +1,7 @@
 CONSTANTS
   Ext <- AllExtensions
   Conv = "bundled"
+  Defects = FALSE
   Mode = "bfs"
   Kernel = "ref"
   MaxBlocks = 2
